@@ -51,9 +51,9 @@ func ZZ_AUX_bmc() {
 	}
 	mp := NewMotionProcessor(h.parse, &mc, rc, &config.Location{}, nil, msink, zzCam{1, 1, fps}, cr, ssink)
 	raw := make([]byte, 2)
-	n := 0          // accepted frames so far
-	r := 0          // motion run (ghost of C04)
-	snapCount := 0  // frames in the current test recording
+	n := 0         // accepted frames so far
+	r := 0         // motion run (ghost of C04)
+	snapCount := 0 // frames in the current test recording
 	snapActive := false
 	pending := false
 	for t := 0; t < K; t++ {
